@@ -130,11 +130,18 @@ def check_proofs(ctx):
 
 def parse_body(step_text):
     m = re.match(r"StTxn \[(.*?)\] (true|false)\n", step_text, re.S)
-    if not m:
-        return [], None
-    body = m.group(1)
-    stmts = [s.strip() for s in re.split(r";\n      ", body)] if body.strip() else []
-    return stmts, m.group(2) == "true"
+    if m:
+        body = m.group(1)
+        stmts = [s.strip() for s in re.split(r";\n      ", body)] if body.strip() else []
+        return stmts, m.group(2) == "true"
+    m = re.match(r"StNested \[(.*?)\]\n    \[(.*?)\] (true|false)\n    \[(.*?)\] (true|false)\n", step_text, re.S)
+    if m:
+        stmts = []
+        for part in (m.group(1), m.group(2), m.group(4)):
+            if part.strip():
+                stmts += [s.strip() for s in re.split(r";\n      ", part)]
+        return stmts, m.group(5) == "true"
+    return [], None
 
 
 def inserted_offsets(stmts):
@@ -402,7 +409,66 @@ def run_alloc_engine(ctx, spec):
                       found_input=False)
 
 
-ENGINES = {"hist": run_hist_engine, "alloc": run_alloc_engine}
+def known_findings(pid):
+    """finding: lines of KNOWN_FINDINGS.txt for a property -> {class: text}"""
+    out = {}
+    for l in open(os.path.join(VERIF, "KNOWN_FINDINGS.txt")):
+        m = re.match(r"finding: property=(\w+) class=(\w+) (.*)", l.strip())
+        if m and m.group(1) == pid:
+            out[m.group(2)] = m.group(3)
+    return out
+
+
+def run_codec_engine(ctx, spec):
+    """C05: real commit.Buffer vs coq/Buffer.v byte for byte; wire round trips and merge rewrite checked in the harness"""
+    n = spec["quick"] if ctx.tier == "quick" else spec["thorough"]
+    out = os.path.join(CACHE, "run", f"{ctx.pid}_codec")
+    if os.path.exists(out):
+        shutil.rmtree(out)
+    t0 = time.time()
+    cmd = [os.path.join(CACHE, "harness"), "codec", "--seed", str(ctx.seed), "--n", str(n), "--out", out]
+    if ctx.tier == "thorough":
+        cmd.append("--long")
+    vlib.sh(cmd, timeout=2400)
+    s = json.load(open(os.path.join(out, "summary.json")))
+
+    def ev(path):
+        p = subprocess.run(["timeout", "2400", "coqc", "-Q", COQ, "ColumnV", path], cwd=out, stdout=subprocess.PIPE, stderr=subprocess.STDOUT, text=True)
+        m = re.search(r"M\s*=\s*(.*?)\n\s*:\s*list", p.stdout, re.S)
+        if p.returncode != 0 or not m:
+            return None, p.stdout[-1500:]
+        return [(int(a), int(b)) for a, b in re.findall(r"\((\d+),\s*(\d+)\)", m.group(1))], None
+    import concurrent.futures
+    bad = []
+    with concurrent.futures.ThreadPoolExecutor(max_workers=16) as ex:
+        for res, err in ex.map(ev, s["shards"]):
+            if err:
+                ctx.violation("correspondence", "CodecCheck.v could not be evaluated on the recorded buffers: " + err, found_input=False)
+            else:
+                bad += res
+    ctx.checker_cmds.append(f".cache/harness codec --seed {ctx.seed} --n {n}; coqc <shards>   # Buffer.v put/range vs commit.Buffer bytes")
+    cov = ctx.coverage
+    cov["evaluations"] += s["cases"]
+    cov["distinct_nontrivial"] += s["cases"]
+    cov.setdefault("engines", []).append({"engine": "codec", "cases": s["cases"], "ops": s["ops"], "op_kinds": s["op_kinds"],
+                                          "value_widths": s["value_widths"], "delta_classes": s["delta_classes"], "longest_sequence": s["longest_sequence"],
+                                          "wire_round_trips": s["wire_round_trips"], "rewrite_checks": s["rewrite_checks"], "k2_instances": s["k2_instances"],
+                                          "model_disagreements": len(bad), "wall_s": round(time.time() - t0, 1)})
+    cov["samples"] += [{"engine": "codec", "case": x[:1500]} for x in (s.get("samples") or [])[:1]]
+    what = {1: "buffer bytes", 2: "chunk headers", 3: "last offset", 4: "decoded block", 5: "model-internal range/filter"}
+    for case, tag in bad[:5]:
+        ctx.violation("codec", f"commit.Buffer and the model differ in {what.get(tag, tag)} on generated case {case} (seed {ctx.seed})",
+                      data={"engine": "codec", "seed": ctx.seed, "case": case, "tag": tag})
+    for f in (s.get("failures") or [])[:5]:
+        ctx.violation("wire", "round trip / rewrite: " + f, data={"engine": "codec", "seed": ctx.seed, "failure": f})
+    kf = known_findings(ctx.pid)
+    if s["k2_instances"] and "K2" in kf:
+        ctx.known.append("K2 " + kf["K2"] + f" ({s['k2_instances']} instances in this run)")
+    elif s["k2_instances"]:
+        ctx.violation("rewrite", f"{s['k2_instances']} offsets read a reordered sequence after a length-changing merge rewrite", data={"engine": "codec", "seed": ctx.seed})
+
+
+ENGINES = {"hist": run_hist_engine, "alloc": run_alloc_engine, "codec": run_codec_engine}
 
 H = lambda profile, q, t, **kw: dict(engine="hist", profile=profile, quick=q, thorough=t, **kw)
 
@@ -415,6 +481,8 @@ PROPS = {
                 rule="histories with indexes created/dropped mid-history, replicas and restores; non-trivial = >=3 commits with deletes or merges"),
     "C04": dict(engines=[H("filter", 80, 1000)],
                 rule="histories with filter chains and terminals; non-trivial = a chain operator and a terminal in the history"),
+    "C05": dict(engines=[dict(engine="codec", quick=300, thorough=6000), H("mix", 30, 300)],
+                rule="random op sequences over {delete, insert, put, merge} x {0,2,4,8-byte, bytes} x offset moves, written to the real buffer; every case is distinct by construction (independent PRNG streams) and non-trivial (>=1 op); the model must produce the same bytes"),
     "C07": dict(engines=[H("restore", 60, 800), H("dense", 3, 24, per_shard=1)],
                 rule="histories with snapshot->restore->continue cycles; non-trivial = a restore after >=2 commits"),
     "C11": dict(engines=[H("alloc", 60, 800), dict(engine="alloc", quick=300, thorough=6000)],
@@ -423,7 +491,7 @@ PROPS = {
                 rule="keyed histories over a 6-key alphabet; non-trivial = >=3 key operations"),
     "C15": dict(engines=[H("mix", 60, 800), H("atomic", 30, 300)],
                 rule="histories with a recording logger: emitted commits (decoded per block) compared with the model's stream, ids checked to be distinct, non-zero and increasing per block; non-trivial = >=2 emitted commits with an abort or a multi-block transaction"),
-    "C16": dict(engines=[H("mix", 60, 800)],
+    "C16": dict(engines=[H("sorted", 60, 800)],
                 rule="histories with a sorted index; non-trivial = an Ascend in the history"),
     "C19": dict(engines=[H("mix", 60, 800)],
                 rule="histories with triggers created/dropped mid-history; non-trivial = >=2 trigger events"),
